@@ -579,6 +579,21 @@ async function op_query_csv_text(req) {
     return {bytes_hex: Buffer.concat(sink.parts).toString('hex'), warnings: warnings, error: error};
 }
 
+async function op_query_csv_files(req) {
+    // the file-to-file entry point of the JS package (stream or bulk reading), on paths prepared by the caller
+    let warnings = [], error = null;
+    try {
+        await rbql_csv.query_csv(req.query, req.input_path, req.delim, req.policy, req.output_path, req.out_delim, req.out_policy, req.encoding || 'utf-8', warnings,
+                                 !!req.with_headers, req.comment_prefix || null, req.init_code || '', req.bulk_read ? {bulk_read: true} : null);
+        await turns(3);
+    } catch (e) {
+        error = err_info(e);
+    }
+    let out_hex = null;
+    try { out_hex = fs.readFileSync(req.output_path).toString('hex'); } catch (e) { out_hex = null; }
+    return {warnings: warnings, error: error, out_hex: out_hex};
+}
+
 async function handle(req) {
     switch (req.op) {
         case 'hello': scratch_dir = req.scratch; return {ok: true, node: process.version, js_dir: JS_DIR, rbql_version: rbql.version};
@@ -598,6 +613,7 @@ async function handle(req) {
         case 'stream_vs_bulk': return await op_stream_vs_bulk(req);
         case 'query_unbounded': return await op_query_unbounded(req);
         case 'query_csv_text_batch': { let rs = []; for (let c of req.cases) rs.push(await op_query_csv_text(c)); return {results: rs}; }
+        case 'query_csv_files': return await op_query_csv_files(req);
         case 'like_cross': return await op_like_cross(req);
         case 'like_literal_batch': return await op_like_literal_batch(req);
         default: return {error: {cls: 'DriverError', msg: 'unknown op ' + req.op}};
